@@ -18,7 +18,8 @@ from ..effects import (
     fmt_effect,
 )
 from ..flow import flow_of
-from ..index import Def, public_functions, public_methods
+from ..index import Def, attr_chain, public_functions, public_methods
+from .runtime import facts_at
 from ..runner import Ctx, exception, rule
 
 HEAVY = (EXEC, STORE_CREATE, STORE_WRITE, STORE_DELETE)
@@ -330,6 +331,26 @@ def lazy_implicit(ctx: Ctx) -> None:
         if not mq.startswith(scope) or mq.endswith("array_object"):
             continue
         ap = _maybe_array_params(repo, d)
+        # operator.index(p) / p.__index__() of *any* parameter that has not been shown to be a
+        # plain number: Array.__index__ computes
+        if d.parent is None and not d.name.startswith("_"):
+            from ..cfg import cfg_of as _cfg_of
+
+            for n in d.own_nodes():
+                arg = None
+                if isinstance(n, ast.Call) and (attr_chain(n.func) or "") in ("operator.index", "index") and n.args and isinstance(n.args[0], ast.Name) and n.args[0].id in d.params:
+                    arg = n.args[0]
+                elif isinstance(n, ast.Call) and isinstance(n.func, ast.Attribute) and n.func.attr == "__index__" and isinstance(n.func.value, ast.Name) and n.func.value.id in d.params:
+                    arg = n.func.value
+                if arg is None:
+                    continue
+                c_ = _cfg_of(d)
+                guarded = False
+                if c_.has(n):
+                    for t, pol in facts_at(c_, c_.node_of(n)):
+                        if pol and isinstance(t, ast.Call) and isinstance(t.func, ast.Name) and t.func.id == "isinstance" and isinstance(t.args[0], ast.Name) and t.args[0].id == arg.id and "Array" not in unparse(t.args[1]):
+                            guarded = True
+                ctx.ob(d, n, guarded, f"`{unparse(n, 40)}` converts parameter `{arg.id}` to an index" + (" after an isinstance check" if guarded else ": if it is a 0-d cubed array, Array.__index__ computes it — tasks run while the expression is being built"), sel=f"implicit:index:{arg.id}")
         if not ap:
             continue
         n_funcs += 1
